@@ -14,8 +14,34 @@ RULE = ("(a) every subcircuit object returned by the emulator for basis-state pr
         "counting. non-trivial = n >= 2 (bit order observable); distinct = (mode, n, program or outcome list hash)")
 ASSUMPTIONS = ["bits(k, n): character i of the string = bit i of the integer (qubit 0 leftmost and least significant)"]
 TIERS = {"quick": {"shards": 8, "budget_s": 60}, "thorough": {"shards": 16, "budget_s": 300}}
-REQUIRE = {"many-shot-output-lists": 2, "mode:frequencies": 50, "mode:job": 50, "mode:emulator": 100, "mode:outputs": 50, "mode:direct": 50, "non-palindromic-certain-outcomes": 50,
+REQUIRE = {"views-held-and-rechecked": 5000, "many-shot-output-lists": 2, "mode:frequencies": 50, "mode:job": 50, "mode:emulator": 100, "mode:outputs": 50, "mode:direct": 50, "non-palindromic-certain-outcomes": 50,
            "outcomes-as-int": 500, "outcomes-as-str": 500, "views-checked": 300}
+
+
+HELD = []
+
+
+def hold(name, view):
+    """A view handed out stays what it was when it was handed out, whatever other views are asked for later (of this or
+    of any other subcircuit): remember the object and a copy of its contents."""
+    try:
+        HELD.append((name, view, list(view.items())))
+    except Exception:
+        pass
+    return view
+
+
+def check_held(fails):
+    for name, view, snap in HELD:
+        try:
+            now = list(view.items())
+        except Exception as ex:
+            now = repr(ex)
+        if now != snap:
+            changed = [k for (k, v), (k2, v2) in zip(snap, now) if k != k2 or v != v2][:4] if isinstance(now, list) else now
+            fails.append(("view-changed-after-it-was-handed-out:" + name, {"held views": len(HELD), "first changed keys": changed}))
+            break
+    del HELD[:]
 
 
 def check_views(tag, sc, n, fails, probabilistic):
@@ -31,7 +57,7 @@ def check_views(tag, sc, n, fails, probabilistic):
             fails.append((tag + ":negative-probability", {"min": float(p.min())}))
         if abs(p.sum() - 1) > 1e-9:
             fails.append((tag + ":probabilities-do-not-sum-to-one", {"sum": float(p.sum())}))
-        d = sc.simulated_probability_by_str
+        d = hold("simulated_probability_by_str", sc.simulated_probability_by_str)
         if list(d.keys()) != keys:
             fails.append((tag + ":string-view-keys", {"got": list(d.keys())[:8], "expected": keys[:8]}))
         elif any(d[keys[k]] != p[k] for k in range(N)):
@@ -42,7 +68,7 @@ def check_views(tag, sc, n, fails, probabilistic):
     if not probabilistic:
         # the deprecated aliases first: reading a view must not change what the other views say afterwards
         dep_i = np.asarray(sc.probability_by_int, dtype=float).copy()
-        dep_s = dict(sc.probability_by_str)
+        dep_s = dict(hold("probability_by_str", sc.probability_by_str))
         rf0 = np.asarray(sc.relative_frequency_by_int, dtype=float)
         tot_d, tot_r = dep_i.sum(), rf0.sum()
         if dep_i.shape != rf0.shape or list(dep_s.keys()) != keys or any(dep_s[keys[k]] != dep_i[k] for k in range(N)) or \
@@ -52,7 +78,7 @@ def check_views(tag, sc, n, fails, probabilistic):
     if rf.shape != (N,):
         fails.append((tag + ":frequency-shape", {"shape": rf.shape}))
         return
-    d = sc.relative_frequency_by_str
+    d = hold("relative_frequency_by_str", sc.relative_frequency_by_str)
     if list(d.keys()) != keys:
         fails.append((tag + ":frequency-string-view-keys", {"got": list(d.keys())[:8], "expected": keys[:8]}))
     elif any(d[keys[k]] != rf[k] for k in range(N)):
@@ -141,6 +167,8 @@ def judge_job(case):
     info = {"n": s.n, "views": 0, "executions": 0}
     total = 0
     for k in range(case.get("executions", 3)):
+        # views handed out so far are judged before the job runs again (a view that follows later readouts is not at fault)
+        check_held(fails)
         r = lib.budgeted(job.execute, X.budget_for(P))
         if r[0] != "ok":
             return "skipped:execute-" + r[0], fails, info
@@ -269,6 +297,18 @@ def judge_frequencies(case):
 
 
 def judge(case):
+    del HELD[:]
+    out = judge_(case)
+    nheld = len(HELD)
+    if out[0] == "ok":
+        check_held(out[1])
+        if isinstance(out[2], dict):
+            out[2]["held"] = nheld
+    del HELD[:]
+    return out
+
+
+def judge_(case):
     m = case["mode"]
     if m == "frequencies":
         return judge_frequencies(case)
@@ -294,6 +334,7 @@ def process(ctx, case):
         return
     rec.count("judged")
     rec.count("views-checked", info.get("views", 0))
+    rec.count("views-held-and-rechecked", info.get("held", 0))
     rec.count("n=%d" % info["n"])
     rec.count("outcomes-as-int", info.get("ints", 0))
     rec.count("outcomes-as-str", info.get("strs", 0))
